@@ -1,0 +1,82 @@
+// Verification hooks (no-ops unless RKCOMMON_VERIF is defined).
+//
+// Named scheduling / logging points used by the conformance harness under
+// /verif: RKCOMMON_VERIF_POINT(site, obj) calls a process-wide callback if a
+// harness installed one.  The callback may log the point and may block the
+// calling thread until the harness lets it continue, so that a chosen thread
+// can be paused at a chosen place.  With the guard off every macro expands to
+// nothing and this header declares nothing.
+#pragma once
+
+#ifdef RKCOMMON_VERIF
+
+#include <atomic>
+
+namespace rkcommon {
+  namespace verif {
+
+    using PointFcn = void (*)(const char *site, const void *obj);
+
+    inline std::atomic<PointFcn> &pointSlot()
+    {
+      static std::atomic<PointFcn> slot{nullptr};
+      return slot;
+    }
+
+    inline void setPointFcn(PointFcn f)
+    {
+      pointSlot().store(f);
+    }
+
+    inline void point(const char *site, const void *obj)
+    {
+      PointFcn f = pointSlot().load();
+      if (f)
+        f(site, obj);
+    }
+
+    // A point reached while holding LOCK: the lock is released while the
+    // thread is parked in the callback and re-acquired before it continues.
+    template <typename LOCK>
+    inline void pointUnlocked(const char *site, const void *obj, LOCK &lock)
+    {
+      PointFcn f = pointSlot().load();
+      if (f) {
+        lock.unlock();
+        f(site, obj);
+        lock.lock();
+      }
+    }
+
+    // A point at scope exit (after the enclosing scope's return value has
+    // been computed).
+    struct ScopePoint
+    {
+      ScopePoint(const char *s, const void *o) : site(s), obj(o) {}
+      ~ScopePoint()
+      {
+        point(site, obj);
+      }
+      const char *site;
+      const void *obj;
+    };
+
+  }  // namespace verif
+}  // namespace rkcommon
+
+#define RKCOMMON_VERIF_CAT2(a, b) a##b
+#define RKCOMMON_VERIF_CAT(a, b) RKCOMMON_VERIF_CAT2(a, b)
+#define RKCOMMON_VERIF_POINT(site, obj) ::rkcommon::verif::point(site, obj)
+#define RKCOMMON_VERIF_POINT_UNLOCKED(site, obj, lock)                         \
+  ::rkcommon::verif::pointUnlocked(site, obj, lock)
+#define RKCOMMON_VERIF_SCOPE(site, obj)                                        \
+  ::rkcommon::verif::ScopePoint RKCOMMON_VERIF_CAT(rkcommonVerifScope_,        \
+                                                   __LINE__)(site, obj)
+
+#else
+
+#define RKCOMMON_VERIF_POINT(site, obj)
+#define RKCOMMON_VERIF_POINT_UNLOCKED(site, obj, lock)
+#define RKCOMMON_VERIF_SCOPE(site, obj)
+
+#endif
